@@ -15,6 +15,7 @@ import WmModel.Props.C09Tie
 #print axioms Wm.Chain.chain_perm_invariant
 #print axioms Wm.Chain.chain_sublist
 #print axioms Wm.Chain.plugins_loaded_before_handlers_start
+#print axioms Wm.Chain.caller_edits_invisible
 #print axioms Wm.Chain.exec_regs
 #print axioms Wm.Chain.started_frozen
 #print axioms Wm.Chain.program_chain_trace
